@@ -28,7 +28,7 @@ def subimage(ctx, det, center, shape):
 
 @op('points_from_grid')
 def points_from_grid(ctx, det, perm_seed, k=None, optics_from=True,
-                     tilt=None, only=None):
+                     tilt=None, only=None, spread=None):
     """detector_points listing (a subset of) the grid's coordinates in a
     seeded permutation (local RandomState)."""
     import holopy as hp
@@ -45,6 +45,10 @@ def points_from_grid(ctx, det, perm_seed, k=None, optics_from=True,
     if tilt is not None:
         # a detector that is very slightly tilted: z varies with x
         zz = zz + tilt * (xs[order] - xs.min())
+    if spread is not None:
+        # points at very different distances (0.1 ... 500 um further away)
+        zz = zz - 10 ** np.random.RandomState(spread).uniform(
+            -1, 2.7, size=len(zz))
     xo, yo = xs[order], ys[order]
     if only is not None:
         sel = [i % len(xo) for i in only]
